@@ -113,11 +113,29 @@ def judge_all(prop, cfg, lines, impl, model, incidents):
     return ctx, findings, evaluations, len(distinct), samples
 
 
+def splice_corpus(prop, cases):
+    """minimised past failures and regression inputs of repaired defects (corpus/<id>/*.case) run first: they are
+    spliced in right after the generator's preamble"""
+    import glob
+    files = sorted(glob.glob(os.path.join(core.ROOT, "corpus", prop, "*.case")))
+    if not files:
+        return
+    with open(cases) as f:
+        lines = f.read().split("\n")
+    first = next((i for i, l in enumerate(lines) if l.startswith("#case")), len(lines))
+    extra = []
+    for p in files:
+        extra += [l for l in open(p).read().split("\n") if l]
+    with open(cases, "w") as f:
+        f.write("\n".join(lines[:first] + extra + lines[first:]))
+
+
 def run_once(prop, tier, seed, wd, cfg, extra_head=None, nproc=1):
     spec = PROPS[prop]
     cases = os.path.join(wd, "cases.txt")
     extra = spec["extra"](wd) if "extra" in spec else []
     core.gen_cases(spec["family"], seed, tier, extra, cases, [cfg["line"]])
+    splice_corpus(prop, cases)
     lines, impl, model, incidents = core.run_pair(cases, wd, nproc, spec.get("model_input"))
     return (lines, impl, model, incidents) + judge_all(prop, cfg, lines, impl, model, incidents)
 
